@@ -553,9 +553,10 @@ inductive StageTag
   | line | labelFilter | jsonNoParams | jsonParams | logfmt | regexp | lineFormat | labelFormat | unwrap | drop
 deriving DecidableEq, Repr
 
-/-- ClickHouse cannot run: `json` without parameters, `logfmt`, `line_format` -/
+/-- ClickHouse cannot run: `json` without parameters, `logfmt`, `line_format`, `label_format` (the last one since the
+    `fix:` found by C07: the ClickHouse planner has no label_format stage and used to skip it) -/
 def StageTag.breaks : StageTag → Bool
-  | .jsonNoParams | .logfmt | .lineFormat => true
+  | .jsonNoParams | .logfmt | .lineFormat | .labelFormat => true
   | _ => false
 
 /-- `GetBreakpoint` on a stream selector: index of the first breaking stage, −1 if none -/
